@@ -1164,10 +1164,16 @@ class Program:
             cmds, cbs = [], []
             for n in ast.walk(m.tree):
                 if isinstance(n, ast.Call) and isinstance(n.func, ast.Attribute) and n.func.attr == "add_command" and norm(n.func.value) == obj:
-                    q = self.resolve_name_expr(n.args[0], m)
-                    if q not in self.funcs:
-                        raise AnalysisError(f"{m.name}: add_command({norm(n.args[0])}) does not resolve to a package function")
-                    cmds.append(self.funcs[q])
+                    regs = [n.args[0]]
+                    # `for command in (commands.create, commands.diff, ..): group.add_command(command)` at module level
+                    lp = parent(parent(n)) if isinstance(parent(n), ast.Expr) else None
+                    if isinstance(n.args[0], ast.Name) and isinstance(lp, ast.For) and parent(lp) is m.tree and isinstance(lp.target, ast.Name) and lp.target.id == n.args[0].id and isinstance(lp.iter, (ast.Tuple, ast.List)) and not lp.orelse and len(lp.body) == 1:
+                        regs = list(lp.iter.elts)
+                    for a0 in regs:
+                        q = self.resolve_name_expr(a0, m)
+                        if q not in self.funcs:
+                            raise AnalysisError(f"{m.name}: add_command({norm(a0)}) does not resolve to a package function")
+                        cmds.append(self.funcs[q])
             for q, f in self.funcs.items():
                 if f.module is m and any(d.startswith(obj + ".result_callback") or d.startswith(obj + ".resultcallback") for d in f.decorators):
                     cbs.append(f)
